@@ -24,3 +24,4 @@ open GlueVerif.C04
 #print axioms GlueVerif.C04.indexed_pixel
 #print axioms GlueVerif.C04.indexed_mask
 #print axioms GlueVerif.C04.indexed_after_reindex
+#print axioms GlueVerif.C04.indexed_histogram_selection
